@@ -30,9 +30,9 @@ if [ "${SKIP_TESTS:-0}" != 1 ]; then
   done
   for t in "$dir"/seed_*.sh; do
     [ -e "$t" ] || continue
-    (cd "$wt" && cargo build --offline > /dev/null 2>&1; ROCFL="$wt/target/debug/rocfl" bash "$t" > /tmp/sv_${name}_demo_with.log 2>&1); with=$?
+    (cd "$wt" && cargo build --offline > /dev/null 2>&1; ROCFL="$wt/target/debug/rocfl" bash "$t" "$wt/target/debug/rocfl" > /tmp/sv_${name}_demo_with.log 2>&1); with=$?
     git -C "$wt" apply -R "$dir/patch.diff"
-    (cd "$wt" && cargo build --offline > /dev/null 2>&1; ROCFL="$wt/target/debug/rocfl" bash "$t" > /tmp/sv_${name}_demo_without.log 2>&1); without=$?
+    (cd "$wt" && cargo build --offline > /dev/null 2>&1; ROCFL="$wt/target/debug/rocfl" bash "$t" "$wt/target/debug/rocfl" > /tmp/sv_${name}_demo_without.log 2>&1); without=$?
     git -C "$wt" apply "$dir/patch.diff"
     echo "SEED $name: demo $(basename $t) with-change rc=$with (want != 0), without rc=$without (want 0)"
   done
